@@ -383,7 +383,7 @@ func genC10b(c *Ctx) {
 		for j := 0; j < steps; j++ {
 			k := c.R.Intn(len(kinds))
 			n := c10Len(c, bs, false)
-			sched = append(sched, c10Sched{k, c10Call{c10Mode(c), n}})
+			sched = append(sched, c10Sched{k, c10Call{c10Mode(c, bs, n), n}})
 			lens[k] += n
 		}
 		c10Pair(c, cn, key, iv, c10Spare(c, bs), kinds, c.R.Intn(3) == 0, sched,
